@@ -97,6 +97,7 @@ public:
 	using Index		= UCapacity<NCapacity>;
 
 	static constexpr Index CAPACITY	= NCapacity;
+	static constexpr Index INVALID	= Index (-1);
 
 public:
 	template <typename... TArgs>
